@@ -7,7 +7,15 @@ what it was actually called with to its own log, so "what the tool received" is 
 """
 from __future__ import annotations
 
+import copy
+import io
+import json
+import keyword
+import pickle
 import sys
+import types
+from decimal import Decimal
+from fractions import Fraction
 
 from rv.vclock import VClock
 
@@ -24,7 +32,60 @@ class ToolAbort(BaseException):
 
 RAISES = [(ValueError, "tool says no"), (KeyError, "k"), (ZeroDivisionError, "tool division"), (ToolError, "custom"), (StopIteration, ""),
           (RuntimeError, "boom"), (TypeError, "tool type"), (OverflowError, "tool overflow"), (LookupError, ""), (ArithmeticError, ""),
-          (ToolAbort, "base"), (TimeoutError, "tool timeout"), (RecursionError, "tool recursion"), (MemoryError, "tool memory")]
+          (ToolAbort, "base"), (TimeoutError, "tool timeout"), (RecursionError, "tool recursion"), (MemoryError, "tool memory"),
+          # round 4: every type a handler around the tool could discriminate on
+          (AssertionError, "tool assert"), (PermissionError, "tool permission"), (SyntaxError, "tool syntax"), (NotImplementedError, ""),
+          (OSError, "tool os"), (UnicodeError, "tool unicode"), (AttributeError, "tool attribute"), (NameError, "tool name"),
+          (IndexError, "tool index"), (FloatingPointError, "tool fp"), (BufferError, ""), (EOFError, ""), (ImportError, "tool import"),
+          (ConnectionError, "tool connection"), (InterruptedError, "")]
+
+
+def _json_error(text):
+    return json.JSONDecodeError(text, "{", 1)
+
+
+RAISES.append((_json_error, "tool json"))
+
+
+def _same(a, b):
+    """same type and ==, NaN-aware, element-wise for lists/tuples"""
+    if type(a) is not type(b):
+        return False
+    if isinstance(a, float):
+        return (a != a and b != b) or a == b
+    if isinstance(a, complex):
+        return _same(a.real, b.real) and _same(a.imag, b.imag)
+    if isinstance(a, (list, tuple)):
+        return len(a) == len(b) and all(_same(x, y) for x, y in zip(a, b))
+    try:
+        return bool(a == b)
+    except Exception:  # noqa
+        return a is b
+
+
+class Payload:
+    """a tool result that carries attributes named like the engine's own result labels (duck typing); equal by content"""
+
+    def __init__(self, value, success=False, error="payload error"):
+        self.value = value
+        self.success = success
+        self.error = error
+        self.atp = None
+        self.pathway = None
+        self.output = None
+
+    def __eq__(self, other):
+        return type(other) is Payload and _same((self.value, self.success, self.error), (other.value, other.success, other.error))
+
+    __hash__ = None
+
+    def __repr__(self):
+        return "Payload(%r, success=%r, error=%r)" % (self.value, self.success, self.error)
+
+
+SENTINEL = object()                                   # compares by identity only
+RETURNED_ERROR = ValueError("returned, not raised")   # an exception INSTANCE as an ordinary value
+FALSY_RESULTS = [0, "", [], (), 0.0, False, None]
 
 
 def _items(k):
@@ -43,6 +104,11 @@ KINDS = {
     "slow": (("x",), ("seconds",), False, False, ()),
     "kwonly": (("a",), ("c",), False, False, ("b",)),
     "pair": (("a", "b"), (), False, False, ()),
+    # round 4
+    "payload": (("value",), ("success", "error"), False, False, ()),
+    "exc": ((), ("x",), False, False, ()),
+    "falsy": (("i",), (), False, False, ()),
+    "sentinel": ((), (), False, True, ()),
 }
 KW_POOL = ["k0", "k1", "factor", "offset", "value", "text", "a", "b", "c", "extra", "items", "seconds", "code", "quiet", "x", "nosuch",
            "sep", "upper", "width", "self", "name", "args", "kwargs", "tool", "expression"]
@@ -99,10 +165,46 @@ def make_tool(kind, log, clock=None):
         def f(a, b):
             log.append(((a, b), ()))
             return [a, b]
+    elif kind == "payload":
+        def f(value, success=False, error="payload error"):
+            log.append(((value,), (("error", error), ("success", success))))
+            return Payload(value, success, error)
+    elif kind == "exc":
+        def f(x=None):
+            log.append(((), (("x", x),)))
+            return RETURNED_ERROR
+    elif kind == "falsy":
+        def f(i):
+            log.append(((i,), ()))
+            return FALSY_RESULTS[i % len(FALSY_RESULTS)]       # TypeError unless i is an integer
+    elif kind == "sentinel":
+        def f(**k):
+            log.append(((), _items(k)))
+            return SENTINEL
     else:
         raise AssertionError(kind)
     f.__name__ = kind
     return f
+
+
+class FalsyCallable:
+    """a callable whose truth value is False (`if handler:` is not `if handler is not None:`)"""
+
+    def __init__(self, f, how):
+        self.f = f
+        self.how = how
+        self.__name__ = getattr(f, "__name__", "falsy")
+
+    def __call__(self, *a, **k):
+        return self.f(*a, **k)
+
+    def __bool__(self):
+        if self.how == "bool":
+            return False
+        return len(self) > 0
+
+    def __len__(self):
+        return 0
 
 
 class CustomTool:
@@ -119,6 +221,13 @@ class CustomTool:
 
     def execute(self, *args, **kwargs):
         return self._f(*args, **kwargs)
+
+
+class FalsyTool(CustomTool):
+    """a tool OBJECT that is falsy (an empty container by its own account)"""
+
+    def __len__(self):
+        return 0
 
 
 def schema_for(rng, kind):
@@ -176,16 +285,29 @@ class Sink:
 SINK = Sink()
 
 
+class _NullRaw(io.RawIOBase):
+    def writable(self):
+        return True
+
+    def write(self, b):
+        return len(b)
+
+
+# a real strict UTF-8 text stream (what a console / a pipe is): lone surrogates raise UnicodeEncodeError here
+STRICT = io.TextIOWrapper(_NullRaw(), encoding="utf-8", errors="strict", write_through=True)
+
+
 class Quiet:
     """redirects stdout into the sink while a non-silent engine is being driven (the harness' own printing stays visible)"""
 
-    def __init__(self, on):
+    def __init__(self, on, strict=False):
         self.on = on
+        self.strict = strict
 
     def __enter__(self):
         if self.on:
             self.old = sys.stdout
-            sys.stdout = SINK
+            sys.stdout = STRICT if self.strict else SINK
 
     def __exit__(self, *a):
         if self.on:
@@ -194,7 +316,58 @@ class Quiet:
 
 
 TOOL_NAMES = ["probe", "scale", "describe", "strict", "const", "boom", "mutator", "slow", "kwonly", "pair", "Probe", "SCALE", "t1", "tool_2",
-              "lookup", "Scale"]
+              "lookup", "Scale", "payload", "exc", "falsy", "sentinel"]
+# names nobody can call from an expression, registered NEXT TO the callable ones: regex metacharacters, braces, %, NUL, newlines,
+# a prefix of every parenthesised expression, the empty name
+HOSTILE_NAMES = ["a.*", "t{0}", "%s", "100%", "nul\x00l", "line\nbreak", "", "(", "((", "[", "pro", "probe(", "1 +", "t(1)", "{name}", "é(", "sq", "not", "true",
+                 "^$", "a|b", "\\d+", "tab\t"]
+
+
+_LIB_IDENTS = None
+
+
+def lib_identifiers():
+    """identifiers the engine's own module uses for parameters and local variables (discovered at run time from the code objects and
+    dataclass fields of the tree under test, never listed here): keyword names a user may legitimately choose too"""
+    global _LIB_IDENTS
+    if _LIB_IDENTS is not None:
+        return _LIB_IDENTS
+    import dataclasses
+    import operon_ai.organelles.mitochondria as mod
+    names = set()
+
+    def code_names(co):
+        names.update(co.co_varnames)
+        names.update(co.co_freevars)
+        names.update(co.co_cellvars)
+        for c in co.co_consts:
+            if isinstance(c, types.CodeType):
+                code_names(c)
+
+    def visit(obj, depth=0):
+        for k, v in list(vars(obj).items()):
+            f = getattr(v, "__func__", v)
+            f = getattr(f, "fget", f) if isinstance(f, property) else f
+            if isinstance(f, types.FunctionType) and f.__module__ == mod.__name__:
+                code_names(f.__code__)
+            elif isinstance(v, type) and v.__module__ == mod.__name__ and depth < 2:
+                if dataclasses.is_dataclass(v):
+                    names.update(fld.name for fld in dataclasses.fields(v))
+                visit(v, depth + 1)
+    visit(mod)
+    try:
+        from operon_ai import providers
+        for cls in (getattr(providers, "ToolCall", None), getattr(providers, "ToolResult", None), getattr(providers, "ToolSchema", None)):
+            if cls is not None and dataclasses.is_dataclass(cls):
+                names.update(fld.name for fld in dataclasses.fields(cls))
+    except Exception:  # noqa
+        pass
+    _LIB_IDENTS = sorted(n for n in names if n.isidentifier() and not keyword.iskeyword(n) and not n.startswith("_") and n not in ("True", "False", "None"))
+    return _LIB_IDENTS
+
+
+def kw_pool():
+    return KW_POOL + [n for n in lib_identifiers() if n not in KW_POOL]
 
 
 class Eng:
@@ -214,12 +387,54 @@ class Eng:
         self.ref_ns = {}       # registered name -> twin for the reference evaluation
         self.eng_log = []
         self.ref_log = []
+        self.strict_out = False
+        self.style = "plain"   # how metabolize() is called (positional / keywords / a str subclass / pathway omitted)
+        self.pure_extra = {}   # names added to THIS engine's allow-list (instance-level function table)
+        self.removed = []      # tool names withdrawn mid-session (Python: NameError)
+        self.changed = False   # a public setting was assigned after construction
+        self.duplicated = False
 
     def quiet(self):
-        return Quiet(not self.silent)
+        return Quiet(not self.silent, self.strict_out)
+
+    def call(self, expr, pathway):
+        m = self.mito
+        st = self.style
+        if st == "kw":
+            return m.metabolize(expression=expr, pathway=pathway)
+        if st == "strsub":
+            return m.metabolize(StrSub(expr), pathway)
+        if st == "omit" and pathway is None:
+            return m.metabolize(expr)
+        if st == "kw2":
+            return m.metabolize(expr, pathway=pathway)
+        return m.metabolize(expr, pathway)
+
+
+class StrSub(str):
+    """a str subclass (carries an attribute, is otherwise an ordinary string)"""
+    origin = "user"
+
+
+def _twice(x):
+    return x * 2
+
+
+PURE_EXTRA = {"twice": _twice, "halfpi": 1.5707963267948966, "clamp": lambda x, lo=0, hi=1: max(lo, min(hi, x))}
 
 
 def build_engine(rng, clock=None, plain=False, want_tools=0, names=None, force_kw=None):
+    eng = _build_engine(rng, clock, plain, want_tools, names, force_kw)
+    r = rng.random()
+    if plain:
+        eng.style = "plain" if r < 0.8 else rng.choice(["kw", "strsub", "omit", "kw2"])
+    else:
+        eng.style = rng.choice(["plain", "plain", "kw", "strsub", "omit", "kw2"])
+        eng.strict_out = rng.random() < 0.5
+    return eng
+
+
+def _build_engine(rng, clock=None, plain=False, want_tools=0, names=None, force_kw=None):
     """An engine in a configuration drawn from the whole constructor/registration surface.
     plain=True: silent, default timeout, huge max_ros, one schema-less `probe` tool (the configuration of rounds 1-2)."""
     from operon_ai.organelles.mitochondria import Mitochondria, SimpleTool
@@ -235,29 +450,34 @@ def build_engine(rng, clock=None, plain=False, want_tools=0, names=None, force_k
         silent = rng.random() < 0.5
         if silent or rng.random() < 0.9:
             kw["silent"] = silent
+            if rng.random() < 0.25:      # flags given as truthy / falsy NON-bool values
+                kw["silent"] = rng.choice([1, "yes", [0], 2.5]) if silent else rng.choice([0, None, "", [], 0.0])
         else:
             silent = False       # the constructor default is the verbose mode
         if clock is not None:
-            kw["timeout_seconds"] = rng.choice([5.0, 0.5, 0.25, 1, 2, 2.5, 30, 1e9, 1e-3, 86400 * 2, 0.1 + 0.2, 7])
+            kw["timeout_seconds"] = rng.choice([5.0, 0.5, 0.25, 1, 2, 2.5, 30, 1e9, 1e-3, 86400 * 2, 0.1 + 0.2, 7,
+                                                0, True, Fraction(1, 4), Fraction(5, 2), Fraction(10 ** 9)])
         elif rng.random() < 0.5:
-            kw["timeout_seconds"] = rng.choice([5.0, 30, 1e9, 60, 3600.5, 10 ** 20, float("inf")])
+            kw["timeout_seconds"] = rng.choice([5.0, 30, 1e9, 60, 3600.5, 10 ** 20, float("inf"), Fraction(3601, 2), 10 ** 6])
         r = rng.random()
         if r < 0.55:
-            kw["max_ros"] = rng.choice([1e12, 1e12, float("inf"), 10 ** 30, 1000])
+            kw["max_ros"] = rng.choice([1e12, 1e12, float("inf"), 10 ** 30, 1000, Fraction(10 ** 12), Decimal("1e12")])
         elif r < 0.85:
             pass                 # default 1.0: ten failures shut the engine down until repair()
         else:
-            kw["max_ros"] = rng.choice([0.35, 0.1 + 0.2, 1, 2.5, 0.1, 1e-9, 0])
-        allowed = rng.choice([None, None, None, "omit", "omit", "all", "some", "empty", "strings"])
+            kw["max_ros"] = rng.choice([0.35, 0.1 + 0.2, 1, 2.5, 0.1, 1e-9, 0, True, Fraction(3, 10), Decimal("0.35"), False])
+        allowed = rng.choice([None, None, None, "omit", "omit", "all", "some", "empty", "strings", "frozen"])
         if allowed != "omit":
             kw["allowed_capabilities"] = {None: None, "all": set(Capability), "some": {Capability.READ_FS, Capability.NET},
-                                          "empty": set(), "strings": {"net", "read_fs"}}[allowed]
+                                          "empty": set(), "strings": {"net", "read_fs"},
+                                          "frozen": frozenset({Capability.READ_FS, Capability.NET})}[allowed]
         regs = []
-        for _ in range(want_tools or rng.randint(1, 4)):
+        for _ in range(0 if want_tools < 0 else (want_tools or rng.randint(1, 4))):
             name = rng.choice(names or TOOL_NAMES)
             kind = name if (name in KINDS and rng.random() < 0.8) else rng.choice(list(KINDS))
             route = rng.choice(["register", "register", "ctor", "engulf", "custom"])
-            caps = rng.choice([None, None, None, set(), {Capability.READ_FS}, {Capability.NET, Capability.MONEY}, {"net"}, [Capability.NET]])
+            caps = rng.choice([None, None, None, set(), {Capability.READ_FS}, {Capability.NET, Capability.MONEY}, {"net"}, [Capability.NET],
+                               frozenset({Capability.READ_FS})])
             descr = rng.choice(["", "a tool", "x" * 300, "décrit ⚡", "line1\nline2", None])
             regs.append((name, kind, route, schema_for(rng, kind), caps, descr))
         eng.silent = silent
@@ -280,14 +500,33 @@ def build_engine(rng, clock=None, plain=False, want_tools=0, names=None, force_k
     later = []
     for name, kind, route, schema, caps, descr in regs:
         fn = make_tool(kind, eng.eng_log, clock)
+        if not plain and rng.random() < 0.12:
+            fn = FalsyCallable(fn, rng.choice(["bool", "len"]))
         if route == "ctor":
             ctor_tools.append(simple(name, kind, schema, caps, descr, fn))
         else:
             later.append((name, kind, route, schema, caps, descr, fn))
+    hostile = []
+    if not plain and want_tools >= 0 and rng.random() < 0.25:
+        hostile = [(hn, rng.choice(["ctor", "register", "engulf"])) for hn in rng.sample(HOSTILE_NAMES, rng.randint(1, 3))]
+        ctor_tools += [SimpleTool(hn, "hostile name", make_tool("probe", eng.eng_log, None)) for hn, rt in hostile if rt == "ctor"]
+        eng.desc["hostile_names"] = [hn for hn, _ in hostile]
     if ctor_tools or (not plain and rng.random() < 0.3):
         kw["tools"] = ctor_tools if (ctor_tools or rng.random() < 0.5) else None
+        if not plain and kw["tools"] is not None:
+            # one-shot iterables / other containers where a list is usual
+            how = rng.choice(["list", "list", "tuple", "iter", "gen", "map"])
+            tl = kw["tools"]
+            kw["tools"] = {"list": lambda: tl, "tuple": lambda: tuple(tl), "iter": lambda: iter(tl), "gen": lambda: (t for t in tl),
+                           "map": lambda: map(lambda t: t, tl)}[how]()
+            eng.desc["tools_given_as"] = how
     with eng.quiet():
         eng.mito = Mitochondria(**kw)
+        for hn, rt in hostile:
+            if rt == "register":
+                eng.mito.register_function(hn, make_tool("probe", eng.eng_log, None))
+            elif rt == "engulf":
+                eng.mito.engulf_tool(CustomTool(hn, "hostile name", make_tool("probe", eng.eng_log, None)))
         for name, kind, route, schema, caps, descr, fn in later:
             if route == "register":
                 rkw = {}
@@ -301,7 +540,16 @@ def build_engine(rng, clock=None, plain=False, want_tools=0, names=None, force_k
             elif route == "engulf":
                 eng.mito.engulf_tool(simple(name, kind, schema, caps, descr, fn))
             else:
-                eng.mito.engulf_tool(CustomTool(name, descr or "", fn, schema, caps, rng.choice(["required_capabilities", "capabilities"])))
+                cls = FalsyTool if rng.random() < 0.3 else CustomTool
+                eng.mito.engulf_tool(cls(name, descr or "", fn, schema, caps, rng.choice(["required_capabilities", "capabilities"])))
+        if not plain and rng.random() < 0.15:
+            # this engine's allow-list extended through the public function table (instance level; the class table stays as it is)
+            try:
+                eng.mito.SAFE_FUNCTIONS = dict(type(eng.mito).SAFE_FUNCTIONS, **PURE_EXTRA)
+                eng.pure_extra = dict(PURE_EXTRA)
+                eng.desc["allow_list_extended"] = sorted(PURE_EXTRA)
+            except Exception:  # noqa
+                eng.pure_extra = {}
     # registration order = the order the engine saw: constructor tools first, then the others; a later registration under the same name wins
     order = [(n, k) for n, k, rt, *_ in regs if rt == "ctor"] + [(n, k) for n, k, rt, *_ in regs if rt != "ctor"]
     for name, kind in order:
@@ -317,8 +565,12 @@ def build_engine(rng, clock=None, plain=False, want_tools=0, names=None, force_k
 def tool_call_source(rng, g, eng, depth):
     """source text of a call of one of the engine's tools: mostly well-formed for the function's signature, sometimes not
     (missing / surplus / unknown / duplicated parameters: Python raises TypeError), arguments drawn from the allowed grammar"""
-    name = rng.choice(sorted(eng.kinds))
-    kind = eng.kinds[name]
+    pool = kw_pool()
+    if not eng.kinds or (eng.removed and rng.random() < 0.25):
+        name, kind = (rng.choice(eng.removed) if eng.removed else "probe"), "probe"      # not (or no longer) registered: Python raises NameError
+    else:
+        name = rng.choice(sorted(eng.kinds))
+        kind = eng.kinds[name]
     req, opt, varpos, varkw, kwo = KINDS[kind]
     if rng.random() < 0.08:
         name = rng.choice([name.upper(), name.capitalize(), name.lower(), name + "_", "un" + name])   # (nearly) another name
@@ -333,8 +585,10 @@ def tool_call_source(rng, g, eng, depth):
             return g.lst(depth) if r < 0.85 else g.anyv(depth)
         if kind == "scale" and r < 0.6:
             return g.num(depth)
-        if pname in ("quiet",):
+        if pname in ("quiet", "success"):
             return rng.choice(["True", "False", "0", "1", "''", "[]"])
+        if kind == "falsy" and pname == "i":
+            return rng.choice(["0", "1", "2", "3", "4", "5", "6", "7", "(2 + 3)", "True", "1.5", "'x'", "(-1)"])
         return g.anyv(depth) if r < 0.8 else g.lst(depth)
     pos, kws = [], []
     if rng.random() < 0.72:
@@ -359,17 +613,163 @@ def tool_call_source(rng, g, eng, depth):
             for _ in range(rng.randint(0, 3)):
                 pos.append(val())
         if varkw:
-            for p in rng.sample(KW_POOL, rng.randint(0, 3)):
+            for p in rng.sample(pool, rng.randint(0, 3)):
                 if p not in [k for k, _ in kws] and p not in req:
                     kws.append((p, val()))
         if rng.random() < 0.12:
-            p = rng.choice(KW_POOL)
+            p = rng.choice(pool)
             if p not in [k for k, _ in kws]:
                 kws.append((p, val()))      # possibly unknown to the function
         rng.shuffle(kws)
+        if kws and rng.random() < 0.04:
+            k0, v0 = rng.choice(kws)
+            kws.insert(rng.randrange(len(kws) + 1), (k0, rng.choice([v0, val(k0)])))      # the same keyword twice: Python refuses the call (SyntaxError)
     else:
         for _ in range(rng.randint(0, 3)):
             pos.append(val())
-        for p in rng.sample(KW_POOL, rng.randint(0, 3)):
+        for p in rng.sample(pool, rng.randint(0, 3)):
             kws.append((p, val(p)))
     return "%s(%s)" % (name, ", ".join(pos + ["%s=%s" % kv for kv in kws]))
+
+
+# ------------------------------------------------------------------------------------------------ round 4: operations inside a session
+def reconfigure(ctx, rng, eng):
+    """a PUBLIC setting assigned / toggled / withdrawn mid-session; the harness' picture of the engine (verbosity, timeout, registered
+    names and their reference twins) follows the CURRENT value"""
+    from operon_ai.organelles.mitochondria import SimpleTool
+    from operon_ai.core.types import Capability
+    m = eng.mito
+    k = rng.randrange(9)
+    ctx.count("settings_changed_mid_session")
+    with eng.quiet():
+        if k == 0:
+            new = rng.choice([True, False, 0, 1, None, "", "yes", False, True])
+            m.silent = new
+            eng.silent = bool(new)
+        elif k == 1:
+            if eng.clock is not None:
+                new = rng.choice([0.25, 0.5, Fraction(1, 2), 1, 2.5, 1e9, 1e-3, 0, True, 86400 * 2, 5.0])
+            else:
+                new = rng.choice([5.0, 30, 1e9, Fraction(60), 3600.5, 10 ** 6])
+            m.timeout = new
+            eng.timeout = new
+        elif k == 2:
+            m.max_ros = rng.choice([1e12, 1.0, 0.35, Fraction(3, 10), Decimal("0.35"), float("inf"), 0, 1000, True, 1e12, 10 ** 30])
+        elif k == 3:
+            m.allowed_capabilities = rng.choice([None, None, set(Capability), {Capability.READ_FS, Capability.NET}, set(),
+                                                 frozenset({Capability.NET}), frozenset(Capability)])
+        elif k in (4, 7) and (eng.kinds or k == 7):
+            # an existing name bound to ANOTHER function (k == 4) / a new name (k == 7), through any route incl. the public registry dict
+            name = rng.choice(sorted(eng.kinds)) if k == 4 else rng.choice(TOOL_NAMES + ["fresh_%d" % rng.randrange(5)])
+            kind = rng.choice(sorted(KINDS))
+            fn = make_tool(kind, eng.eng_log, eng.clock)
+            route = rng.choice(["register", "engulf", "custom", "dict"])
+            if route == "register":
+                m.register_function(name, fn)
+            elif route == "engulf":
+                m.engulf_tool(SimpleTool(name, "re-registered", fn))
+            elif route == "custom":
+                m.engulf_tool(CustomTool(name, "re-registered", fn))
+            else:
+                m.tools[name] = SimpleTool(name, "assigned", fn)
+            eng.kinds[name] = kind
+            eng.ref_ns[name] = make_tool(kind, eng.ref_log, None)
+            eng.schemas[name] = None
+            if name in eng.removed:
+                eng.removed.remove(name)
+        elif k == 5 and len(eng.kinds) >= 2:
+            name = rng.choice(sorted(eng.kinds))
+            if rng.random() < 0.5:
+                del m.tools[name]
+            else:
+                m.tools.pop(name)
+            eng.kinds.pop(name)
+            eng.ref_ns.pop(name)
+            eng.schemas.pop(name, None)
+            eng.removed.append(name)
+        elif k == 6:
+            items = list(m.tools.items())
+            if rng.random() < 0.5:
+                items.reverse()
+            m.tools = dict(items)
+        elif k == 8 and eng.kinds:
+            # a second name for a registered tool object (the registry key is the allow-listed name)
+            name = rng.choice(sorted(eng.kinds))
+            alias = rng.choice(["alias", "aka", name + "2"])
+            m.tools[alias] = m.tools[name]
+            eng.kinds[alias] = eng.kinds[name]
+            eng.ref_ns[alias] = eng.ref_ns[name]
+            eng.schemas[alias] = None
+            if alias in eng.removed:
+                eng.removed.remove(alias)
+
+
+def duplicate(ctx, rng, eng, how=None):
+    """the engine is replaced by a copy / deep copy / pickle round trip of itself; every obligation holds for the duplicate"""
+    how = how or rng.choice(["copy", "deepcopy", "pickle", "pickle"])
+    try:
+        if how == "copy":
+            new = copy.copy(eng.mito)
+        elif how == "deepcopy":
+            new = copy.deepcopy(eng.mito)
+        else:
+            new = pickle.loads(pickle.dumps(eng.mito))
+    except Exception:  # noqa  (closures as tool bodies cannot be pickled: that is Python's limit, not the engine's)
+        ctx.count("duplicate_not_possible:" + how)
+        return
+    if type(new) is not type(eng.mito):
+        ctx.count("duplicate_not_possible:" + how)
+        return
+    eng.mito = new
+    ctx.count("engine_duplicated")
+    ctx.count("engine_duplicated:" + how)
+
+
+_ARG_VALUES = [0, 1, -1, 2.5, True, False, "", "text", [], [1, 2], (1,), None, 2 ** 64, 0.1 + 0.2]
+
+
+def direct_tool_call(ctx, rng, eng):
+    """execute_tool_call(): the structured entry point for tools, interleaved in the session. Not an expression, so nothing here is
+    judged against the statement; what the tool received is recorded (informational) and the engine's state moves as it does for users."""
+    try:
+        from operon_ai.providers import ToolCall
+    except Exception:  # noqa
+        return
+    m = eng.mito
+    if eng.kinds and rng.random() < 0.85:
+        name = rng.choice(sorted(eng.kinds))
+        req, opt, varpos, varkw, kwo = KINDS[eng.kinds[name]]
+        args = {p: rng.choice(_ARG_VALUES) for p in list(req) + list(kwo)}
+        for p in opt:
+            if rng.random() < 0.5:
+                args[p] = rng.choice(_ARG_VALUES)
+        if varkw:
+            for p in rng.sample(kw_pool(), rng.randint(0, 3)):
+                args.setdefault(p, rng.choice(_ARG_VALUES))
+    else:
+        name, args = rng.choice(["nosuch", "", "probe2"]), {"a": 1}
+    del eng.eng_log[:]
+    sent = dict(args)
+    try:
+        with eng.quiet():
+            res = m.execute_tool_call(ToolCall(id="c%d" % rng.randrange(1000), name=name, arguments=args))
+    except BaseException:  # noqa
+        ctx.count("execute_tool_call_raised(not judged)")
+        return
+    finally:
+        calls = list(eng.eng_log)
+        del eng.eng_log[:]
+    ctx.count("execute_tool_call_made")
+    if getattr(res, "success", False) and len(calls) == 1 and name in eng.kinds and eng.kinds[name] in ("probe", "describe", "sentinel"):
+        got = dict(calls[0][1])
+        want = {k: v for k, v in sent.items() if k not in KINDS[eng.kinds[name]][0]}
+        ctx.count("execute_tool_call_keywords_seen_intact(informational)" if got == want else "execute_tool_call_keywords_differ(informational, not judged)")
+
+
+def public_surface(ctx, eng):
+    """informational: public methods of the engine class the harness never calls (enumerated at run time)"""
+    driven = {"metabolize", "digest_glucose", "engulf_tool", "register_function", "get_statistics", "list_tools", "export_tool_schemas",
+              "get_efficiency", "get_ros_level", "repair", "execute_tool_call"}
+    for name in dir(type(eng.mito)):
+        if not name.startswith("_") and callable(getattr(type(eng.mito), name, None)) and name not in driven:
+            ctx.count("public_method_never_called:" + name)
